@@ -916,7 +916,16 @@ fn merge_rx(lines: Vec<String>, rx: &[Value]) -> Vec<String> {
                         v["t"] = json!("ParseErr");
                         v["msg"] = r["msg"].clone();
                     }
-                    for k in ["pty", "ptext", "caps", "loc", "cands", "world"] {
+                    if kind == "perr" {
+                        // item index inside the scripted parser stream
+                        let re = Regex::new(r"<perr(\d+)>").unwrap();
+                        let item = re
+                            .captures(r["msg"].as_str().unwrap_or(""))
+                            .and_then(|c| c[1].parse::<i64>().ok())
+                            .unwrap_or(-1);
+                        v["item"] = json!(item);
+                    }
+                    for k in ["pty", "pmsg", "ptext", "caps", "loc", "cands", "world"] {
                         if let Some(x) = r.get(k) {
                             v[k] = x.clone();
                         }
